@@ -3,6 +3,12 @@
 import json, os, sys
 HERE = os.path.dirname(os.path.dirname(os.path.abspath(__file__)))
 
+# The alphabets named in the texts below are those of the first build; four seeding rounds and an input round widened
+# them (DESIGN §12).  Sizes quoted here are lower bounds.
+SUFFIX = (" [The alphabets were widened after this text was written (families F7, reverse direction, 16-dimension layout, "
+          "embedded interfaces, further hook / converter / path shapes, environment and file-system states - DESIGN §12); counts "
+          "quoted here are lower bounds. The authoritative statement of what a run enumerated is the `rule` and `bounds` of its evidence file.]")
+
 # id -> (category, technique, text, note, design_ref)
 CLAIMED = {
  "C01": ("model_checking",
@@ -124,7 +130,7 @@ for p in props:
             "evidence_file": f"/verif/evidence/{pid}.json",
             "replay_cmd_template": "./run.sh replay {path}",
             "engine": "vcheck",
-            "level_claimed": {"category": cat, "text": text, "design_ref": ref},
+            "level_claimed": {"category": cat, "text": text + SUFFIX, "design_ref": ref},
             "level_note": note,
             "technique": tech,
         })
